@@ -63,6 +63,11 @@ def c03(ck):
              agree=["InvAgreeDecoder"], trace_path=path, stats=st, nontrivial=nt, key=key)
     ck.trace("corrupt", "corrupt", ["-n", q(ck, 30, 250)], "TraceCodec", "TraceCodec.cfg", ["InvC03", "InvC13"],
              agree=["InvAgreeDecoder"], nontrivial=nt, key=key)
+    if ck.violations:
+        return
+    # well-formed however long: lists of 65 537 ... 250 000 (thorough: 4 M) empty items with one more list behind them
+    ck.trace("flat", "big", ["-arg", "flat"], "TraceCodec", "TraceCodec.cfg", ["InvSeq"], nontrivial=lambda e: True,
+             key=lambda e: json.dumps([e.get("kind"), e.get("n")]), consts_extra={"ChunkSize": 1})
     ck.assumptions += ["TLC explores the decoder model exhaustively only inside the stated scope",
                        "the harness projection (zz_verif.go, proj.go) reports the stored representation faithfully",
                        "message name and direction are not on the wire and are not compared"]
@@ -458,6 +463,12 @@ def c05(ck):
     ck.rule.append("co-enumeration: every sequence of <= 2 (quick) / 3 words of a 37-word vocabulary and <= 3 / 4 words of a 12-word one "
                    "between '<' and '>' of an item")
     _sml_enum(ck, q(ck, ["item:full:2,item:small:3"], ["item:full:3", "item:small:4"]), ["InvC05"])
+    if ck.violations:
+        return
+    # every code point outside ASCII inside a string, a number, a character code, a boolean and a float
+    ck.rule.append("code points: U+0080..U+10FFFF (quick: the basic plane completely, every 61st beyond) in 5 literal contexts, as intervals "
+                   "of constant outcome; the texts at the ends and the middle of every interval against the parser model")
+    ck.trace("cp", "cp-sweep", [], "TraceSml", "TraceSml.cfg", ["InvC05", "InvCp"], agree=["InvAgreeParse"], consts_extra={"ChunkSize": 1})
     ck.assumptions.append(SML_NOTE)
 
 
